@@ -1,9 +1,168 @@
-/- C02 driver: not written yet -/
+/-
+  C02 driver.  Reads the `r` lines of harness/interval.cpp (one per evaluated opcode case: operand
+  intervals, libfive's result, raw results of the primitives the authored case splits combine) and
+  re-derives libfive's FLAG and CASE SELECTION with the model `Libfive.Ivl.iop` instantiated at
+  `K = Float` (every float32 is exactly a double; only comparisons are performed on `K`).
+  Bounds that are the direct result of one Boost primitive are taken from the harness line as that
+  primitive's result; bounds of the libfive-authored cases (division by a zero-crossing interval,
+  atan of infinite bounds, min/max hull rule, nanfill, compare, atan2's 9 cases, mod's switch) are
+  recomputed and compared.
+  Output: `MISMATCH …` per disagreeing case, `stat <op> <cases> <flagged>` per opcode, one `summary` line.
+-/
 import Driver.Parse
+import LibfiveModel.Interval
+open Libfive Libfive.Ivl
 
 namespace Driver.C02
 
-def run (_args : List String) (lines : Array String) : Array String :=
-  #[s!"MISMATCH driver-not-implemented {lines.size}"]
+def f32bits (s : String) : UInt32 := ((F32.parseHex s).getD 0x7fc00000).toUInt32
+
+def toF (s : String) : Float := (Float32.ofBits (f32bits s)).toFloat
+
+def fv (x : Float) : FVal Float :=
+  if x.isNaN then FVal.nan
+  else if x.isInf then (if x > 0 then FVal.pinf else FVal.ninf)
+  else FVal.fin x
+
+def fvS (s : String) : FVal Float := fv (toF s)
+
+/-- numeric equality of model and real bounds: NaN = NaN, −0 = +0 -/
+def sameV : FVal Float → FVal Float → Bool
+  | .nan, .nan => true | .ninf, .ninf => true | .pinf, .pinf => true
+  | .fin x, .fin y => x == y
+  | _, _ => false
+
+def bitsOf : FVal Float → UInt64
+  | .nan => 1 | .ninf => 2 | .pinf => 3 | .fin x => x.toBits
+
+/-- exact Boost `min` / `max` / `hull` on bounds (pure selection) -/
+def selMin (a b : FVal Float) : FVal Float := if FVal.lt b a then b else a
+def selMax (a b : FVal Float) : FVal Float := if FVal.lt a b then b else a
+
+/-- Boost's `checking_base::is_empty`: `!(lo <= hi)` -/
+def bad (a : Bnd Float) : Bool := !(FVal.le a.lo a.hi)
+
+/-- C++ `int(x)` for the small exponent constants of the run (truncation) -/
+def truncInt (v : FVal Float) : Int :=
+  match v with
+  | .fin x => if x < 0 then -((-x).floor.toUInt64.toNat : Int) else (x.floor.toUInt64.toNat : Int)
+  | _ => -2147483648
+
+structure Case where
+  op : Op
+  A : IVal Float
+  B : IVal Float
+  R : IVal Float
+  aux : Array String
+  -- operand bound bits for the atan2 corner table
+  keys : Array UInt64
+
+def auxV (c : Case) (i : Nat) : FVal Float := fvS (c.aux.getD i "7fc00000")
+
+/-- the primitives as observed in this case -/
+def boostOf (c : Case) : BoostOps Float :=
+  let R : Bnd Float := ⟨c.R.lo, c.R.hi⟩
+  let r1 : Bnd Float → Bnd Float := fun _ => R
+  let r2 : Bnd Float → Bnd Float → Bnd Float := fun _ _ => R
+  { add := r2, mul := r2,
+    -- in `mod` the only subtraction is `a.i - b.i * float(q)`; otherwise it is the result itself
+    sub := if c.op == Op.mod then (fun _ _ => ⟨auxV c 6, auxV c 7⟩) else r2,
+    div := if c.op == Op.mod then (fun _ _ => ⟨auxV c 2, auxV c 3⟩) else r2,
+    -- Boost: `test_input` (an operand with `!(lo <= hi)`, e.g. NaN bounds) makes min/max return
+    -- `empty()`; `hull` returns the other operand
+    min := fun a b => if bad a || bad b then ⟨FVal.nan, FVal.nan⟩ else ⟨selMin a.lo b.lo, selMin a.hi b.hi⟩,
+    max := fun a b => if bad a || bad b then ⟨FVal.nan, FVal.nan⟩ else ⟨selMax a.lo b.lo, selMax a.hi b.hi⟩,
+    hull := fun a b =>
+      if bad a then (if bad b then ⟨FVal.nan, FVal.nan⟩ else b)
+      else if bad b then a else ⟨selMin a.lo b.lo, selMax a.hi b.hi⟩,
+    neg := r1, abs := if c.op == Op.mod then id else r1, square := r1, sqrt := r1, sin := r1, cos := r1,
+    tan := r1, asin := r1, acos := r1, atan := r1, exp := r1, log := r1, oneDiv := r1,
+    powi := fun _ _ => R, nthRoot := fun _ _ => R,
+    mulNeg1 := id, mulInt := fun b _ => b,
+    empty := ⟨FVal.nan, FVal.nan⟩,
+    atanWhole := ⟨auxV c 0, auxV c 1⟩,
+    atan2f := fun y x =>
+      -- corner table of the harness: (Alo,Blo) (Alo,Bhi) (Ahi,Blo) (Ahi,Bhi), matched by bit pattern
+      let ky := bitsOf y
+      let kx := bitsOf x
+      let iy := if ky == c.keys.getD 0 0 then 0 else 2
+      let ix := if kx == c.keys.getD 2 0 then 0 else 1
+      -- degenerate operands: both rows / columns hold the same value
+      auxV c (iy + ix),
+    pi := auxV c 5, negPi := auxV c 4,
+    toInt := truncInt,
+    floorInt := fun q =>
+      -- `static_cast<int>(std::floor(q))` as the harness observed it for q.lo / q.hi
+      if bitsOf q == bitsOf (auxV c 2) then truncInt (auxV c 4) else truncInt (auxV c 5),
+    nanOnZeroToNeg := c.aux.getD 0 "" == "3f800000",
+    powM1IsNan := fun _ => c.aux.getD 1 "" == "3f800000" }
+
+def parseCase (ws : List String) : Option (String × Case) :=
+  match ws with
+  | "r" :: kind :: op :: alo :: ahi :: amn :: blo :: bhi :: bmn :: "res" :: lo :: hi :: fl :: "aux" :: n :: rest =>
+    match Op.ofPName? op with
+    | none => none
+    | some o =>
+      let n := nat! n
+      let aux := (rest.take n).toArray
+      let A : IVal Float := ⟨fvS alo, fvS ahi, amn == "1"⟩
+      let B : IVal Float := ⟨fvS blo, fvS bhi, bmn == "1"⟩
+      let R : IVal Float := ⟨fvS lo, fvS hi, fl == "1"⟩
+      let key (s : String) : UInt64 := bitsOf (fvS s)
+      some (kind, { op := o, A := A, B := B, R := R, aux := aux,
+                    keys := #[key alo, key ahi, key blo, key bhi] })
+  | _ => none
+
+/-- Float32 −0/+0 distinction is lost by `toFloat`?  No: the sign bit is preserved, `bitsOf` sees it. -/
+def showV : FVal Float → String
+  | .nan => "nan" | .ninf => "-inf" | .pinf => "inf" | .fin x => toString x
+
+def showI (I : IVal Float) : String := s!"[{showV I.lo},{showV I.hi}]{if I.mn then "?" else ""}"
+
+/-- which authored decision the case exercised (for the coverage histogram) -/
+def decision (c : Case) : String :=
+  match c.op with
+  | .atan2 => s!"atan2-case-{atan2Case c.A c.B}"
+  | .mod => s!"mod-pos-{modPosition c.B}-{if c.A.hi.isFinite && c.A.lo.isFinite then "fin" else "inf"}"
+  | .div => if hasZero c.B then "div-zero-crossing" else "div-boost"
+  | .atan => if c.A.lo.isInf || c.A.hi.isInf then "atan-inf" else "atan-boost"
+  | .min | .max | .nanfill => if c.A.mn || c.B.mn then "flagged-operand" else "plain"
+  | .compare => s!"compare-{showV (icompare c.A c.B).lo}-{showV (icompare c.A c.B).hi}"
+  | _ => "flag"
+
+def run (_args : List String) (lines : Array String) : Array String := Id.run do
+  let mut out : Array String := #[]
+  let mut ok := 0
+  let mut mism := 0
+  let mut skip := 0
+  let mut stats : Array (String × Nat × Nat) := #[]     -- (op:decision, cases, flagged)
+  for l in lines do
+    if !l.startsWith "r " then continue
+    match parseCase (words l) with
+    | none => skip := skip + 1
+    | some (kind, c) =>
+      let Bo := boostOf c
+      let M := iop Bo c.op c.A c.B
+      -- `Interval::state()` of the real result against the model's classification
+      let ws := words l
+      let stReal := (ws.dropWhile (· != "st")).getD 1 "?"
+      let stModel := match istate c.R with
+        | IState.empty => "E" | IState.filled => "F" | IState.ambiguous => "A"
+      let good := sameV M.lo c.R.lo && sameV M.hi c.R.hi && M.mn == c.R.mn && stReal == stModel
+      let key := s!"{c.op.pname}:{decision c}"
+      match stats.findIdx? (·.1 == key) with
+      | some i =>
+        let (k, n, f) := stats[i]!
+        stats := stats.set! i (k, n + 1, if c.R.mn then f + 1 else f)
+      | none => stats := stats.push (key, 1, if c.R.mn then 1 else 0)
+      if good then ok := ok + 1
+      else
+        mism := mism + 1
+        if mism ≤ 200 then
+          out := out.push s!"MISMATCH {kind} {c.op.pname} A={showI c.A} B={showI c.B} model={showI M}/{stModel} real={showI c.R}/{stReal} :: {l}"
+  for (k, n, f) in stats do
+    out := out.push s!"stat {k} {n} {f}"
+  out := out.push s!"summary ok {ok} mismatch {mism} skip {skip}"
+  return out
 
 end Driver.C02
